@@ -41,7 +41,7 @@ pub fn run(ctx: &Ctx) -> Outcome {
         let mut lmax = lmax;
         if bs <= 32 {
             lens.extend(long_lengths(bs));
-            lmax = lmax.max(17 * bs + 1);
+            lmax = lmax.max(*lens.iter().max().unwrap());
         }
         let fes = family_frontends(cfg, fam, *dir);
         let pre = dirty(lmax);
@@ -149,6 +149,8 @@ pub fn run(ctx: &Ctx) -> Outcome {
             for (_ivn, iv1) in iv_variants(seed, bs) {
                 let data = pattern(seed, 0xC14C, l + bs);
                 let probe_blocks = &data[..2 * bs];
+                let par = par_of(cfg);
+                let long = pattern(seed, 0xC14D, ((par + 2) * bs).max(l + bs));
                 for ctor in [Ctor::KeyIv, Ctor::Slices, Ctor::InnerSlice] {
                     for d in &cfg.block_modes {
                         let iv = if d.iv_len == bs { iv1.clone() } else { [iv1.clone(), pattern(seed, 0x99, bs)].concat() };
@@ -161,6 +163,22 @@ pub fn run(ctx: &Ctx) -> Outcome {
                             let _ = a.many(Kind::InPlace, &[], &mut oa);
                             let _ = b.many(Kind::InPlace, &[], &mut ob);
                             ensure!(oa == ob && a.iv_state() == b.iv_state(), format!("ctor_differs/{}-{}", d.mode, d.dir.s()), "{}: object built with {} behaves differently from inner_iv_init with a keyed cipher: {} vs {}", d.ty, ctor.s(), short(&ob), short(&oa));
+                            // later too: a call through the parallel path, a single-block call, the exported value, a clone
+                            let n2 = (par + 1) * d.mbs * (bs / d.mbs).max(1);
+                            let mut oa = long[..n2].to_vec();
+                            let mut ob = long[..n2].to_vec();
+                            let _ = a.many(Kind::B2b, &long[..n2], &mut oa);
+                            let _ = b.many(Kind::B2b, &long[..n2], &mut ob);
+                            let mut sa = long[..d.mbs].to_vec();
+                            let mut sb = long[..d.mbs].to_vec();
+                            a.one(Kind::InPlace, &[], &mut sa);
+                            b.one(Kind::InPlace, &[], &mut sb);
+                            let (mut ca, mut cb) = (a.dup(), b.dup());
+                            let mut ta = long[..d.mbs].to_vec();
+                            let mut tb = long[..d.mbs].to_vec();
+                            ca.one(Kind::InPlace, &[], &mut ta);
+                            cb.one(Kind::InPlace, &[], &mut tb);
+                            ensure!(oa == ob && sa == sb && ta == tb && a.iv_state() == b.iv_state(), format!("ctor_differs/{}-{}", d.mode, d.dir.s()), "{}: object built with {} behaves differently from inner_iv_init LATER (parallel call {} vs {}, single block {} vs {}, clone {} vs {})", d.ty, ctor.s(), short(&ob), short(&oa), short(&sb), short(&sa), short(&tb), short(&ta));
                             Ok(())
                         });
                     }
@@ -173,6 +191,27 @@ pub fn run(ctx: &Ctx) -> Outcome {
                             let _ = a.apply_blocks(Kind::InPlace, &[], &mut oa);
                             let _ = b.apply_blocks(Kind::InPlace, &[], &mut ob);
                             ensure!(oa == ob && a.iv_state() == b.iv_state(), format!("ctor_differs/{}", d.mode), "{}: object built with {} behaves differently from inner_iv_init: {} vs {}", d.ty, ctor.s(), short(&ob), short(&oa));
+                            // positions, limits and seeks must agree as well: right away, after a seek, and after more keystream
+                            let obs = |c: &mut Box<dyn Core>| -> Vec<u8> {
+                                let mut v = format!("{:?}/{:?}", c.get_block_pos(), c.remaining_blocks()).into_bytes();
+                                if d.seekable {
+                                    let _ = c.set_block_pos(par as u128 + 2);
+                                }
+                                let mut o = long[..(par + 1) * bs].to_vec();
+                                let _ = c.apply_blocks(Kind::InPlace, &[], &mut o);
+                                v.extend(o);
+                                v.extend(format!("{:?}/{:?}", c.get_block_pos(), c.remaining_blocks()).into_bytes());
+                                if d.seekable {
+                                    let _ = c.set_block_pos(0);
+                                }
+                                let mut o = long[..bs].to_vec();
+                                c.write_block(&mut o);
+                                v.extend(o);
+                                v.extend(c.iv_state());
+                                v
+                            };
+                            let (va, vb) = (obs(&mut a), obs(&mut b));
+                            ensure!(va == vb, format!("ctor_differs/{}", d.mode), "{}: object built with {} differs from inner_iv_init in positions / seeks / later keystream: {} vs {}", d.ty, ctor.s(), short(&vb), short(&va));
                             // byte-level alias built directly vs wrapped core
                             let mut s1 = rec::core(cfg, d, &key, &iv1).into_stream();
                             let mut s2 = rec::new_stream(cfg, d, ctor, &key, &iv1).map_err(|_| Fail { fp: format!("ctor_refused/{}", d.mode), msg: format!("StreamCipherCoreWrapper<{}>::{} refused a key/IV of the right length", d.ty, ctor.s()) })?;
@@ -181,6 +220,15 @@ pub fn run(ctx: &Ctx) -> Outcome {
                             let r1 = s1.apply(Kind::InPlace, &[], &mut o1);
                             let r2 = s2.apply(Kind::InPlace, &[], &mut o2);
                             ensure!(o1 == o2 && r1 == r2, format!("ctor_differs/{}/stream", d.mode), "StreamCipherCoreWrapper<{}>: {} vs from_core(inner_iv_init): {} vs {}", d.ty, ctor.s(), short(&o2), short(&o1));
+                            if d.seekable {
+                                let p1 = (s1.pos(SeekTy::U128), s1.seek(SeekTy::U64, (bs + 3) as u128));
+                                let p2 = (s2.pos(SeekTy::U128), s2.seek(SeekTy::U64, (bs + 3) as u128));
+                                let mut o1 = long[..l].to_vec();
+                                let mut o2 = long[..l].to_vec();
+                                let r1 = s1.apply(Kind::InPlace, &[], &mut o1);
+                                let r2 = s2.apply(Kind::InPlace, &[], &mut o2);
+                                ensure!(p1 == p2 && o1 == o2 && r1 == r2 && s1.pos(SeekTy::U128) == s2.pos(SeekTy::U128), format!("ctor_differs/{}/stream", d.mode), "StreamCipherCoreWrapper<{}>: {} vs from_core(inner_iv_init) after a seek: positions {:?} vs {:?}, bytes {} vs {}", d.ty, ctor.s(), p2, p1, short(&o2), short(&o1));
+                            }
                             Ok(())
                         });
                     }
@@ -193,6 +241,11 @@ pub fn run(ctx: &Ctx) -> Outcome {
                             a.process(&mut oa);
                             b.process(&mut ob);
                             ensure!(oa == ob && a.get_state() == b.get_state(), format!("ctor_differs/bufcfb-{}", d.dir.s()), "{}: {} vs inner_iv_init: {} vs {}", d.ty, ctor.s(), short(&ob), short(&oa));
+                            let mut oa = long[..(par + 1) * bs + 1].to_vec();
+                            let mut ob = oa.clone();
+                            a.process(&mut oa);
+                            b.process(&mut ob);
+                            ensure!(oa == ob && a.get_state() == b.get_state(), format!("ctor_differs/bufcfb-{}", d.dir.s()), "{}: {} vs inner_iv_init on a second, longer call: {} vs {}", d.ty, ctor.s(), short(&ob), short(&oa));
                             Ok(())
                         });
                     }
